@@ -623,6 +623,80 @@ done:
     return mc_nviol != v0 ? -1 : rc;
 }
 
+
+/* ---------- grammar FILES that import rules from each other ----------
+ * main.gram imports the public rule <x> of sub.gram (by name or with .*), and may have a private rule <y> of its own; inside sub.gram
+ * <x> refers to sub.gram's OWN <y>.  Every combination of the menus below is written to a scratch directory, main.gram is compiled
+ * (jsgf_parse_file, jsgf_get_public_rule, jsgf_build_fsg) and the language of the FSG is compared with the denotation computed here:
+ * a reference inside an imported rule means the rule of the grammar it was written in. */
+#include <sys/stat.h>
+#define S_A (1u << 1)
+#define S_B (1u << 2)
+static int
+run_import_case(int mb, int my, int sb, int sy, int form, const char *scratch)
+{
+    static const char *const MAINBODY[4] = { "<x>", "a <x>", "<sub.x>", "<x> | b" };
+    static const char *const MAINY[3] = { "", "<y> = b;", "<y> = a a;" };
+    static const char *const SUBBODY[4] = { "a <y>", "<y> b", "<y>", "<sub.y>" };
+    static const char *const SUBY[3] = { "a", "b", "a | b b" };
+    static const char *const FORM[2] = { "<sub.x>", "<sub.*>" };
+    char path[700], cd[200], badword[64], got_s[400], exp_s[400];
+    set_t ly, lx, ls, got;
+    FILE *fp;
+    jsgf_t *j;
+    jsgf_rule_t *r;
+    fsg_model_t *f;
+    static rg_gram g;
+    int rc;
+    snprintf(cd, sizeof cd, "imports main=%d mainy=%d sub=%d suby=%d form=%d", mb, my, sb, sy, form);
+    mc_set_current(cd);
+    ly = sy == 0 ? S_A : sy == 1 ? S_B : (S_A | s_cat(S_B, S_B));
+    lx = sb == 0 ? s_cat(S_A, ly) : sb == 1 ? s_cat(ly, S_B) : ly;
+    ls = mb == 1 ? s_cat(S_A, lx) : mb == 3 ? (lx | S_B) : lx;
+    mkdir(scratch, 0700);
+    snprintf(path, sizeof path, "%s/sub.gram", scratch);
+    fp = fopen(path, "w");
+    fprintf(fp, "#JSGF V1.0;\ngrammar sub;\npublic <x> = %s;\n<y> = %s;\n", SUBBODY[sb], SUBY[sy]);
+    fclose(fp);
+    snprintf(path, sizeof path, "%s/main.gram", scratch);
+    fp = fopen(path, "w");
+    fprintf(fp, "#JSGF V1.0;\ngrammar main;\nimport %s;\npublic <s> = %s;\n%s\n", FORM[form], MAINBODY[mb], MAINY[my]);
+    fclose(fp);
+    j = jsgf_parse_file(path, NULL);
+    rc = 1;
+    if (!j) {
+        mc_viol("C05/valid-syntax-rejected", cd, "%s: main.gram (import %s; public <s> = %s; %s) with sub.gram (public <x> = %s; <y> = %s;) does not parse", cd, FORM[form],
+                MAINBODY[mb], MAINY[my], SUBBODY[sb], SUBY[sy]);
+        rc = -1;
+    } else {
+        r = jsgf_get_public_rule(j);
+        f = r ? jsgf_build_fsg(j, r, lmath, 1.0f) : NULL;
+        if (!f) {
+            mc_viol("C05/representable-grammar-refused", cd, "%s: main.gram (import %s; public <s> = %s; %s) with sub.gram (public <x> = %s; <y> = %s;) is refused", cd,
+                    FORM[form], MAINBODY[mb], MAINY[my], SUBBODY[sb], SUBY[sy]);
+            rc = -1;
+        } else {
+            if (dump(f, &g, badword, sizeof badword) < 0) {
+                mc_viol("C05/fsg-has-foreign-word", cd, "%s: the FSG has a word that is not in the grammar: %s", cd, badword);
+                rc = -1;
+            } else if ((got = accepted(&g)) != ls) {
+                set_str(got, got_s, sizeof got_s);
+                set_str(ls, exp_s, sizeof exp_s);
+                mc_viol("C05/fsg-language-differs", cd, "%s: main.gram (import %s; public <s> = %s; %s) with sub.gram (public <x> = %s; <y> = %s;): FSG accepts {%s}, JSGF denotes {%s}",
+                        cd, FORM[form], MAINBODY[mb], MAINY[my], SUBBODY[sb], SUBY[sy], got_s, exp_s);
+                rc = -1;
+            }
+            fsg_model_free(f);
+        }
+        jsgf_grammar_free(j);
+    }
+    unlink(path);
+    snprintf(path, sizeof path, "%s/sub.gram", scratch);
+    unlink(path);
+    rmdir(scratch);
+    return rc;
+}
+
 int
 main(int argc, char **argv)
 {
@@ -644,6 +718,34 @@ main(int argc, char **argv)
     sscanf(mc_arg(argc, argv, "--s3", "0,0,0"), "%d,%d,%d", &s3[0], &s3[1], &s3[2]);
     /* warm up stdio/allocator so the leak oracle's baseline is stable */
     mc_stat("trees_le5", tree_count(MAXN - 1));
+    {
+        static char scratch[600];
+        int a, b, c2, d, e;
+        snprintf(scratch, sizeof scratch, "%s.jsgfimp.%d", getenv("MC_OUT") ? getenv("MC_OUT") : "/var/tmp/mc_jsgf", (int)getpid());
+        if (cas && sscanf(cas, "imports main=%d mainy=%d sub=%d suby=%d form=%d", &a, &b, &c2, &d, &e) == 5) {
+            run_import_case(a, b, c2, d, e, scratch);
+            mc_finish();
+            return 0;
+        }
+        if (mc_has(argc, argv, "--imports")) {
+            for (a = 0; a < 4; a++)
+                for (b = 0; b < 3; b++)
+                    for (c2 = 0; c2 < 4; c2++)
+                        for (d = 0; d < 3; d++)
+                            for (e = 0; e < 2; e++) {
+                                int rc_ = run_import_case(a, b, c2, d, e, scratch);
+                                evals++;
+                                nontriv += rc_ > 0;
+                                if (evals == 100 || evals == 200)
+                                    mc_sample("%s", mc_current);
+                            }
+            mc_flag("exhaustive", 1);
+            mc_stat("evaluations", evals);
+            mc_stat("nontrivial", nontriv);
+            mc_finish();
+            return 0;
+        }
+    }
     if (cas) {
         memset(&c, 0, sizeof c);
         if (sscanf(cas, "shape=%d s=%ld/%d x=%ld/%d y=%ld/%d mode=%d", &c.shape, &c.si, &c.sn, &c.xi, &c.xn, &c.yi, &c.yn, &c.mode) != 8)
